@@ -3,6 +3,8 @@
 package simsync
 
 import (
+	"fmt"
+	"os"
 	"sync"
 
 	"github.com/jhalter/mobius/verifsim/simrt"
@@ -16,6 +18,9 @@ type (
 	Pool      = sync.Pool
 	Locker    = sync.Locker
 )
+
+// Debug enables wait-for diagnostics.
+var Debug = os.Getenv("VERIF_DEBUG") != ""
 
 func NewCond(l Locker) *Cond { return sync.NewCond(l) }
 
@@ -40,7 +45,13 @@ func (m *Mutex) Lock() {
 	}
 	simrt.Yield("lock")
 	for m.locked {
+		if Debug {
+			simrt.SetNote(fmt.Sprintf("mutex %p held by %s", m, m.owner.Name))
+		}
 		simrt.Park(&m.q)
+	}
+	if Debug {
+		simrt.SetNote("")
 	}
 	m.locked = true
 	m.owner = t
@@ -83,6 +94,7 @@ func (m *Mutex) Unlock() {
 type RWMutex struct {
 	writer  bool
 	readers int
+	ownerName string
 	q       simrt.WaitQ
 	hb      simrt.SyncObj
 }
@@ -93,9 +105,15 @@ func (m *RWMutex) Lock() {
 	}
 	simrt.Yield("lock")
 	for m.writer || m.readers > 0 {
+		if Debug {
+			simrt.SetNote(fmt.Sprintf("rwmutex %p writer=%v readers=%d held by %s", m, m.writer, m.readers, m.ownerName))
+		}
 		simrt.Park(&m.q)
 	}
 	m.writer = true
+	if t := simrt.Self(); t != nil {
+		m.ownerName = t.Name
+	}
 	simrt.LockHeld(1)
 	m.hb.Acquire()
 }
